@@ -1184,6 +1184,15 @@ class Interp:
         if isinstance(f, TypeTok):
             return self.construct(f, args, kwargs)
         if isinstance(f, ClassRef):
+            # dataclass of the repository: an object with its annotated fields
+            decos = [ast.unparse(d) for d in f.cls.node.decorator_list]
+            if any("dataclass" in d for d in decos):
+                names = [st.target.id for st in f.cls.node.body if isinstance(st, ast.AnnAssign) and isinstance(st.target, ast.Name)]
+                if len(args) > len(names):
+                    raise Unsupported(f"too many arguments for dataclass {f.cls.name}")
+                attrs = dict(zip(names, args))
+                attrs.update(kwargs)
+                return SelfObj(f.cls, attrs)
             raise Unsupported(f"constructing {f.cls.name}")
         if callable(f):
             return f(*args, **kwargs)
@@ -1378,3 +1387,119 @@ BUILTINS = {
     "True": True, "False": False, "None": None, "NotImplementedError": Opaque("NotImplementedError"),
     "ValueError": Opaque("ValueError"), "Exception": Opaque("Exception"), "round": round, "map": lambda f, xs: [f(x) for x in xs],
 }
+
+
+# ----------------------------------------------------------------------------
+# loops of symbolic length: invariants supplied by the contract
+# ----------------------------------------------------------------------------
+
+
+def _assigned_names(stmts):
+    """Names (re)bound or mutated in place inside a loop body."""
+    out = []
+
+    def base_name(t):
+        while isinstance(t, (ast.Subscript, ast.Attribute)):
+            t = t.value
+        return t.id if isinstance(t, ast.Name) else None
+
+    for st in stmts:
+        for node in ast.walk(st):
+            tg = []
+            if isinstance(node, ast.Assign):
+                tg = node.targets
+            elif isinstance(node, (ast.AugAssign, ast.AnnAssign)):
+                tg = [node.target]
+            elif isinstance(node, ast.For):
+                tg = [node.target]
+            for t in tg:
+                for x in ([t] if not isinstance(t, (ast.Tuple, ast.List)) else t.elts):
+                    n = base_name(x)
+                    if n and n not in out:
+                        out.append(n)
+    return out
+
+
+class LoopInvariant:
+    """Hoare rule for `for v in range(n)` / `for row in tensor` with symbolic n.
+
+    inv(env, i) -> [(label, formula)] must hold before iteration i (0 <= i <= n).
+    Obligations: initiation (i = 0), preservation (one arbitrary iteration), and the asserts of the body
+    (proved or recorded, per the assert mode). After the loop the variables modified by the body are
+    arbitrary values satisfying inv(., n)."""
+
+    def __init__(self, inv, name="loop", tags=None, facts=None):
+        self.inv, self.name, self.tags, self.facts = inv, name, tags, facts
+
+    def __call__(self, interp, st, env, fr, it):
+        from .core import input_tensor
+
+        ctx = cur()
+        if isinstance(it, SymRange):
+            lo, n = it.lo, it.hi
+            elem_of = lambda i: simp_int(scalar_binop("add", lo, i))
+            n = simp_int(scalar_binop("sub", n, lo))
+        elif isinstance(it, SymTensor):
+            n = it.shape[0]
+            elem_of = lambda i: ops.getitem(it, i)
+        else:
+            raise Unsupported("LoopInvariant over this iterable")
+        mods = [m for m in _assigned_names(st.body) if m in env]
+        tag = f"{self.name}"
+
+        def oblige(kind, i, e):
+            for lbl, f in self.inv(e, i):
+                ctx.oblige(f"loopinv.{tag}.{kind}.{lbl}", ops.B_(f), kind="post", tags=self.tags)
+
+        def havoc(e, suffix):
+            for m in mods:
+                v = e[m]
+                if isinstance(v, SymTensor):
+                    e[m] = input_tensor(f"{m}@{tag}.{suffix}", v.shape, v.dtype, ctx)
+                elif is_z3(v):
+                    e[m] = ctx.fresh(f"{m}@{tag}.{suffix}", v.sort())
+                elif isinstance(v, (int, float)) and not isinstance(v, bool):
+                    e[m] = ctx.fresh(f"{m}@{tag}.{suffix}", z3.IntSort() if isinstance(v, int) else z3.RealSort())
+                elif v is None or isinstance(v, (bool, str)):
+                    pass
+                else:
+                    raise Unsupported(f"loop-modified variable {m} of type {type(v).__name__}")
+
+        # 1. initiation
+        oblige("init", 0, env)
+        # 2. preservation: arbitrary iteration i from an arbitrary state satisfying the invariant
+        i = z3.Int(f"{tag}.iter")
+        ctx.scalars[f"{tag}.iter"] = (i, "i")
+        saved_hyps, saved_path = list(ctx.hyps), list(ctx.path)
+        body_env = env
+        havoc(body_env, "pre")
+        ctx.assume(z3.And(i >= 0, i < zint(n)))
+        for lbl, f in self.inv(body_env, i):
+            ctx.assume(f)
+        if self.facts is not None:
+            # definitional facts about ghost functions (e.g. one unfolding of a recursive spec function at i)
+            for f in self.facts(body_env, i):
+                ctx.assume(f)
+        interp.assign(st.target, elem_of(i), body_env, fr)
+        try:
+            interp.exec_block(st.body, body_env, fr)
+        except (BreakEx, ContinueEx):
+            raise Unsupported("break/continue in a loop verified by invariant")
+        oblige("step", simp_int(i + 1), body_env)
+        # 3. after the loop: arbitrary state satisfying inv(n). Facts assumed for the single iteration are dropped,
+        #    except the recorded asserts, which are re-stated by the invariant if they matter afterwards.
+        ctx.hyps[:] = saved_hyps
+        ctx.path[:] = saved_path
+        ctx._solver = z3.Solver()
+        ctx._solver.set("timeout", 3000)
+        for h in ctx.hyps:
+            from .core import _has_quant
+
+            if not _has_quant(h):
+                ctx._solver.add(h)
+        ctx._cache.clear()
+        havoc(env, "post")
+        for lbl, f in self.inv(env, n):
+            ctx.assume(f)
+        if isinstance(st.target, ast.Name):
+            env[st.target.id] = elem_of(simp_int(scalar_binop("sub", n, 1)))
